@@ -16,7 +16,8 @@ def search(S):
         ax, ang = L.rand_rot(rng)
         rots.append((ax, ang))
     # structured: every Shepperd branch, exactly pi, near identity, gimbal poles
-    for ax in (np.eye(3)[0], np.eye(3)[1], np.eye(3)[2], np.ones(3) / np.sqrt(3), np.array([0, 1, 1]) / np.sqrt(2)):
+    for ax in (np.eye(3)[0], np.eye(3)[1], np.eye(3)[2], np.ones(3) / np.sqrt(3), np.array([0, 1, 1]) / np.sqrt(2),
+               np.array([1, 1, 0]) / np.sqrt(2), np.array([1, 0, 1]) / np.sqrt(2), np.array([1, -1, 0]) / np.sqrt(2)):      # exact ties between two diagonal entries
         for ang in (0.0, 1e-9, 2.2, 2.9, np.pi):
             rots.append((ax, ang))
     for ax, ang in rots:
